@@ -4,7 +4,7 @@ import vlib
 from gen import jsongen as G
 from props import srvmsg_common as S
 
-TRANSLATORS = ["error_codes", "sniff", "limits_wiring"]
+TRANSLATORS = ["error_codes", "sniff"]
 MODELS = ["server"]
 BINS = {"release": ["srvmsg"]}
 RULE = ("cases = (transport, message bytes) delivered as ONE message to a real jsonrpsee server -- HTTP socket-free through "
@@ -20,7 +20,7 @@ RULE = ("cases = (transport, message bytes) delivered as ONE message to a real j
         "a 14-token alphabet (exhaustive to 3 tokens, sampled to 12); arbitrary bytes incl. invalid UTF-8.  distinct non-trivial = "
         "distinct result lines other than the bare -32700/null answer")
 TRUSTED = [
-    "translators error_codes, sniff, limits_wiring (regex readers of types/src/error.rs, transport/ws.rs, http_helpers.rs, server.rs); the "
+    "translators error_codes, sniff (regex readers of types/src/error.rs, transport/ws.rs, http_helpers.rs); the "
     "codes, the window (126..130 bytes of each whitespace kind) and the first bytes are exercised by the differential run",
     "modelled, not verified: serde/serde_json derive semantics of Request/Notification/InvalidRequest and the untagged Id (Model/Wire.v, "
     "Json/*.v), tokio task scheduling, soketto framing; tied by the differential run only",
@@ -45,7 +45,7 @@ PARSE_ERR = b'{"jsonrpc":"2.0","id":null,"error":{"code":-32700,"message":"Parse
 
 def gen_messages(ctx):
     rng = ctx.rng
-    n = ctx.scale(12000, 150000)
+    n = ctx.scale(12000, 450000)
     msgs = []
 
     def add(m, tag):
@@ -161,7 +161,7 @@ def run(ctx):
     ctx.engines = ["srvmsg (harness/src/bin/srvmsg.rs vs modelrun/server_driver.ml over coq/Model/Server.v), single messages, HTTP + WebSocket"]
     rng = ctx.rng
     msgs = gen_messages(ctx)
-    n_ws = ctx.scale(2500, 20000)
+    n_ws = ctx.scale(2500, 60000)
     cases = [("http", "u", m, tag) for m, tag in msgs]
     ws_pick = rng.sample(range(len(msgs)), min(n_ws, len(msgs)))
     for i in ws_pick:
